@@ -28,12 +28,24 @@ package filter
 
 // hitTube: one k-mer hit either extends the run of hits counted in the tube's slot or starts a new run
 // (after reporting the old one when it reached the threshold).
+// emittedHits counts the hits handed to the sorter (addHit is trusted to do just that).
+//@ ghostfield emittedHits(f *Filter) int
 //@ func (*Filter).addHit
 //@   trusted
-//@   assigns fresh
+//@   ensures emittedHits(f) == old(emittedHits(f)) + 1
+//@   assigns emittedHits(f), fresh
 //@ func (*Filter).hitTube
 //@   property C14
 //@   requires f != nil && len(f.tubes) > 0 && len(f.tubes) == cap(f.tubes) && tubeIndex >= 0
 //@   ensures [extends] result == nil && old(f.tubes[tubeIndex % len(f.tubes)].Count) > 0 && q - old(f.tubes[tubeIndex % len(f.tubes)].QHi) <= f.maxKmerDist ==> f.tubes[tubeIndex % len(f.tubes)].Count == old(f.tubes[tubeIndex % len(f.tubes)].Count) + 1 && f.tubes[tubeIndex % len(f.tubes)].QLo == old(f.tubes[tubeIndex % len(f.tubes)].QLo) && f.tubes[tubeIndex % len(f.tubes)].QHi == q
 //@   ensures [restarts] result == nil && (old(f.tubes[tubeIndex % len(f.tubes)].Count) == 0 || q - old(f.tubes[tubeIndex % len(f.tubes)].QHi) > f.maxKmerDist) ==> f.tubes[tubeIndex % len(f.tubes)].Count == 1 && f.tubes[tubeIndex % len(f.tubes)].QLo == q && f.tubes[tubeIndex % len(f.tubes)].QHi == q
-//@   assigns f.tubes[*], fresh
+//@   ensures [reports]  result == nil && old(f.tubes[tubeIndex % len(f.tubes)].Count) > 0 && q - old(f.tubes[tubeIndex % len(f.tubes)].QHi) > f.maxKmerDist && old(f.tubes[tubeIndex % len(f.tubes)].Count) >= f.minKmersPerHit ==> emittedHits(f) == old(emittedHits(f)) + 1
+//@   ensures [silent]   result == nil && !(old(f.tubes[tubeIndex % len(f.tubes)].Count) > 0 && q - old(f.tubes[tubeIndex % len(f.tubes)].QHi) > f.maxKmerDist && old(f.tubes[tubeIndex % len(f.tubes)].Count) >= f.minKmersPerHit) ==> emittedHits(f) == old(emittedHits(f))
+//@   assigns f.tubes[*], emittedHits(f), fresh
+
+// tubeEnd / tubeFlush report the run counted in a slot exactly when it reached the threshold.
+//@ func (*Filter).tubeFlush
+//@   property C14
+//@   requires f != nil && len(f.tubes) > 0 && len(f.tubes) == cap(f.tubes) && tubeIndex >= 0
+//@   ensures [reports] result == nil ==> emittedHits(f) == old(emittedHits(f)) + (old(f.tubes[tubeIndex % len(f.tubes)].Count) >= f.minKmersPerHit ? 1 : 0)
+//@   assigns f.tubes[*], emittedHits(f), fresh
